@@ -349,7 +349,70 @@ def search_pairs(job):
     return {"failures": out, "tried": tried}
 
 
+def search_meta(job):
+    """C11: check_schema(candidate) returns normally exactly when the executable spec accepts the
+    candidate under the bundled metaschema; otherwise SchemaError and nothing else."""
+    root = job["root"]
+    jsonschema, validators = _load(root)
+    from jsonschema import exceptions
+    from spec import drafts
+    from spec.pyops import PyOps
+    out, tried = [], 0
+    scalars = [None, True, False, 0, 1, -1, 1.5, "", "a", [], [1], ["a"], ["a", "a"], {}, {"a": 1}, [{}], {"a": {}}, {"a": []}, {"a": "b"}, [[]], "integer", ["integer"], ["integer", "integer"],
+               {"type": "integer"}, {"type": 12}, [{"type": 12}], {"a": {"type": 12}}, -0.5, 2 ** 70, "(", {"a": ["b", 1]}, {"a": ["b", "b"]}]
+    for d in job.get("drafts", (3, 4, 6, 7)):
+        cls = classes(validators)[d]
+        meta = json.load(open(root + "/jsonschema/schemas/draft%d.json" % d))
+        names = sorted(set(meta.get("properties", {})) | {"unknownKeyword", "$ref"})
+        cands = list(scalars)
+        for k in names:
+            for v in scalars:
+                cands.append({k: v})
+        cands += [{"properties": {"a": {"items": [{"minimum": "x"}]}}}, {"allOf": [{"anyOf": [{"not": {"type": 5}}]}]},
+                  {"dependencies": {"a": {"required": "b"}}}, {"extends": [{"type": {"x": 1}}]}, meta]
+        for c in cands:
+            tried += 1
+            exp = wf(d, c, drafts, PyOps, meta)
+            try:
+                cls.check_schema(c)
+                obs = True
+            except exceptions.SchemaError:
+                obs = False
+            except Exception as e:      # noqa
+                obs = "exception %s" % type(e).__name__
+            if obs != exp:
+                out.append({"kind": "F", "mode": "meta", "draft": d, "schema": encode(c), "instance": None, "expected": {"accepted": exp}, "observed": {"accepted": obs}})
+                if len(out) >= job.get("limit", 3):
+                    return {"failures": out, "tried": tried}
+    return {"failures": out, "tried": tried}
+
+
+def replay_meta(job):
+    root = job["root"]
+    jsonschema, validators = _load(root)
+    from jsonschema import exceptions
+    from spec import drafts
+    from spec.pyops import PyOps
+    d = job["draft"]
+    cls = classes(validators)[d]
+    meta = json.load(open(root + "/jsonschema/schemas/draft%d.json" % d))
+    c = decode(job["schema"])
+    exp = wf(d, c, drafts, PyOps, meta)
+    try:
+        cls.check_schema(c)
+        obs = True
+    except exceptions.SchemaError:
+        obs = False
+    except Exception as e:      # noqa
+        obs = "exception %s" % type(e).__name__
+    if obs == exp:
+        return {"status": "agrees"}
+    return {"status": "fails", "failure": {"kind": "F", "mode": "meta", "draft": d, "schema": encode(c), "instance": None, "expected": {"accepted": exp}, "observed": {"accepted": obs}}}
+
+
 def replay(job):
+    if job.get("mode") == "meta":
+        return replay_meta(job)
     root = job["root"]
     jsonschema, validators = _load(root)
     from spec import drafts
@@ -373,7 +436,7 @@ def replay(job):
 
 def main():
     job = json.load(sys.stdin)
-    res = {"search": search, "replay": replay, "search_pairs": search_pairs}[job["cmd"]](job)
+    res = {"search": search, "replay": replay, "search_pairs": search_pairs, "search_meta": search_meta}[job["cmd"]](job)
     json.dump(res, sys.stdout)
 
 
